@@ -1,21 +1,20 @@
 (* C04 — property theorems only (the regenerated-table theorems are in C04/TableProofs.v, re-proved on
-   every run against the table extracted from the current Go source). *)
+   every run against the table extracted from the current Go source).  The binder model is the REPAIRED
+   Lambda.Call (repo_fixes C04-1 .. C04-9). *)
 From C04 Require Import Model Spec Proofs ProofsRestKey Arity.
 Open Scope list_scope.
 Open Scope N_scope.
 
-(* (1) For every lambda list made of required, &optional and &aux parameters with distinct names and
-   every argument vector with at least the required number of arguments, the code model binds exactly
-   as the lambda list prescribes (positional first, defaults when absent, auxiliaries last) and rejects
-   too many arguments.  (Kept from the first round; (6) below extends it to &rest and &key and to every
-   lambda list the parser accepts.)
-   FULL STATEMENT (false of the faithful model outside the guard, see (3); inside the guard it is (6)):
-     forall ds args, parse_ll ds = Some l -> outcome_eqv (reorder ds (bind_S l args)) (bind_M ds args) = true *)
-Theorem C04_binder_meets_spec_partial : forall req opt aux args,
-  NoDup (req ++ map fst opt ++ map fst aux) -> (List.length req <= List.length args)%nat ->
+(* (1) For every lambda list made of required, &optional and &aux parameters with distinct names and EVERY
+   argument vector, the code model yields exactly what the lambda list prescribes: positional first, defaults
+   when absent, auxiliaries last, too few and too many arguments rejected.  (First-round theorem; its
+   hypothesis "at least the required number of arguments" is gone since C04-8.  (6) extends it to every lambda
+   list the parser accepts.) *)
+Theorem C04_binder_meets_spec_pos : forall req opt aux args,
+  NoDup (req ++ map fst opt ++ map fst aux) ->
   bind_M (build_pos req opt aux) args = bind_S (pos_ll req opt aux) args.
 Proof. exact binder_meets_spec_pos. Qed.
-Print Assumptions C04_binder_meets_spec_partial.
+Print Assumptions C04_binder_meets_spec_pos.
 
 (* (2) no required parameter ever receives an argument from another position *)
 Theorem C04_required_positional : forall req opt aux args i x a,
@@ -25,12 +24,18 @@ Theorem C04_required_positional : forall req opt aux args i x a,
 Proof. exact required_positional. Qed.
 Print Assumptions C04_required_positional.
 
-(* (3) outside the guard the faithful model violates the specification (known findings): too few
-   arguments, unknown key, key clobbering a required parameter, duplicate key, &rest with &key,
-   keyword without a value, &rest stopping at a keyword that names an &aux parameter *)
+(* (3) the one place left outside the guard where the faithful model does not bind as the language prescribes
+   (known finding C04-rest-stops-at-keyword, asserted by slip's own TestDynamicAmps): with &rest AND &key the
+   rest list ends where the keyword arguments begin.  (defun f (&rest r &key k) ...) called (f :k 1) binds r to
+   nil where the lambda list prescribes (:k 1). *)
 Theorem C04_outside_guard_refuted : forallb (fun w => refuted (fst w) (snd w)) witnesses = true.
 Proof. exact outside_guard_refuted. Qed.
 Print Assumptions C04_outside_guard_refuted.
+Theorem C04_rest_stops_at_keyword_refuted :
+  bind_M (fst w_rest_key) (snd w_rest_key) = OBound [(0, VNil); (1, VInt 1)] /\
+  spec_of (fst w_rest_key) (snd w_rest_key) = Some (OBound [(0, VList [AKw 1; AInt 1%Z]); (1, VInt 1)]).
+Proof. exact rest_key_witness. Qed.
+Print Assumptions C04_rest_stops_at_keyword_refuted.
 
 (* (4) every row accepted by row_ok documents, for EVERY argument count, exactly what CheckArgCount
    enforces (instantiated on the regenerated table in TableProofs.v) *)
@@ -52,22 +57,28 @@ Proof. exact guard_examples. Qed.
 Print Assumptions C04_guard_nonvacuous.
 
 (* (6) THE BINDER REFINEMENT ON THE WHOLE GUARD.  For every lambda list accepted by the parser - required,
-   &optional, &rest, &key, &aux sections in the standard order, markers spelled any way - with distinct
-   parameter names and a plain variable after &rest, and for every argument vector inside the guard
-   (at least the required arguments; not &rest together with &key; no &allow-other-keys; with &rest and
-   no &key no remaining argument is a keyword naming an &aux parameter; with &key the remaining arguments
-   are keyword/value pairs with declared keys each supplied at most once, or start with a non-keyword),
-   the two-pass binder model of Lambda.Call yields EXACTLY the outcome the specification prescribes:
-   positional first, defaults when absent, the rest collected in order, keys by name, auxiliaries last,
-   too many arguments rejected. The one divergence is the kind of the error for a lambda list whose &key
-   section is empty (and without &aux) called with a left-over non-keyword argument: the code rejects it
-   as "too many arguments", the specification as a bad key - both reject. *)
+   &optional, &rest, &key, &allow-other-keys, &aux sections in the standard order, markers spelled any way -
+   with distinct parameter names and a plain variable after &rest, and for every argument vector inside the
+   guard, the two-pass binder model of the repaired Lambda.Call yields EXACTLY the outcome the specification
+   prescribes: positional first, defaults when absent, the rest collected in order, keys by name (the first
+   of several pairs counts), auxiliaries last; too few arguments, too many arguments, a non-keyword or a
+   keyword without value among the key arguments and an unknown keyword (unless &allow-other-keys or
+   :allow-other-keys true) rejected.  The guard (Spec.guard_l) excludes one thing only: a lambda list with
+   BOTH &rest and &key called with arguments left after the positional ones (see (3)).  No second disjunct
+   any more: since C04-9 also the kind of every rejection agrees. *)
 Theorem C04_binder_meets_spec_in_guard : forall ds l args,
   parse_ll ds = Some l -> NoDup (params ds) -> rest_plain ds = true -> in_domain ds args = true ->
-  bind_M ds args = reorder ds (bind_S l args) \/
-  (bind_M ds args = OErr KTooMany /\ bind_S l args = OErr KBadKey /\ l_key l = Some [] /\ l_aux l = []).
+  bind_M ds args = reorder ds (bind_S l args).
 Proof. exact binder_meets_spec_guard. Qed.
 Print Assumptions C04_binder_meets_spec_in_guard.
+
+(* (6') hence for every lambda list the parser accepts that does not combine &rest with &key, the binder meets
+   the specification on ALL argument vectors - the guard is "accepted by the parser" *)
+Theorem C04_binder_meets_spec_all_args : forall ds l args,
+  parse_ll ds = Some l -> NoDup (params ds) -> rest_plain ds = true -> l_rest l = None \/ l_key l = None ->
+  bind_M ds args = reorder ds (bind_S l args).
+Proof. exact binder_meets_spec_all_args. Qed.
+Print Assumptions C04_binder_meets_spec_all_args.
 
 (* (7) the same in the form the correspondence evaluates on every generated case (Corr.check_case code 3):
    inside the guard the self-check can never fire *)
@@ -78,9 +89,9 @@ Proof. exact binder_meets_spec_eqv. Qed.
 Print Assumptions C04_binder_meets_spec_eqv.
 
 (* (8) &rest (without &key): the outcomes are equal, and the rest parameter holds all the arguments after
-   the positional ones, in order (nil when there is none) *)
+   the positional ones, in order (nil when there is none) - keywords included, whatever they are spelled like *)
 Theorem C04_rest_collects_in_order : forall ds l args r,
-  parse_ll ds = Some l -> NoDup (params ds) -> rest_plain ds = true -> in_domain ds args = true ->
+  parse_ll ds = Some l -> NoDup (params ds) -> rest_plain ds = true -> (List.length (l_req l) <= List.length args)%nat ->
   l_key l = None -> l_rest l = Some r ->
   bind_M ds args = reorder ds (bind_S l args) /\
   exists b, bind_M ds args = OBound b /\
@@ -88,40 +99,86 @@ Theorem C04_rest_collects_in_order : forall ds l args r,
 Proof. exact rest_collects_in_order. Qed.
 Print Assumptions C04_rest_collects_in_order.
 
-(* (9) &key: when the remaining arguments are keyword/value pairs, every key parameter holds the value
-   supplied with its keyword wherever that pair stands among the key arguments (keys by name, in any
+(* (9) &key: when the remaining arguments are acceptable keyword/value pairs (every keyword names a &key
+   parameter or is :allow-other-keys, or other keys are allowed), every key parameter holds the value of the
+   FIRST pair with its keyword, wherever that pair stands among the key arguments (keys by name, in any
    order), and its default when its keyword is absent *)
 Theorem C04_keys_by_name : forall ds l args ks ps k d,
   parse_ll ds = Some l -> NoDup (params ds) -> rest_plain ds = true -> in_domain ds args = true ->
-  l_key l = Some ks ->
-  key_pairs (S (List.length (skipn (List.length (l_req l) + List.length (l_opt l)) args)))
-            (skipn (List.length (l_req l) + List.length (l_opt l)) args) = Some ps ->
+  (List.length (l_req l) <= List.length args)%nat ->
+  l_key l = Some ks -> key_pairs (S (List.length (a2of l args))) (a2of l args) = Some ps ->
+  keys_allowed l ps = true \/ forallb (fun p => key_known ks (fst p)) ps = true ->
   In (k, d) ks ->
   exists b, bind_M ds args = OBound b /\
-            (forall v, In (k, v) ps -> lookup b k = Some (arg_val v)) /\
+            (forall v, first_pair k ps = Some v -> lookup b k = Some (arg_val v)) /\
             (~ In k (map fst ps) -> lookup b k = Some (def_val d)).
 Proof. exact key_by_name. Qed.
 Print Assumptions C04_keys_by_name.
 
-(* (10) non-vacuity for (6)-(9): a &rest and a &key lambda list inside the guard with their bindings, a
-   rejected call, and the corner where only the kind of rejection differs *)
+(* (9') ... and no keyword argument, whatever its name, changes a required parameter (C04-5) *)
+Theorem C04_required_kept_under_keys : forall ds l args ks ps i x a,
+  parse_ll ds = Some l -> NoDup (params ds) -> rest_plain ds = true -> in_domain ds args = true ->
+  (List.length (l_req l) <= List.length args)%nat ->
+  l_key l = Some ks -> key_pairs (S (List.length (a2of l args))) (a2of l args) = Some ps ->
+  keys_allowed l ps = true \/ forallb (fun p => key_known ks (fst p)) ps = true ->
+  nth_error (l_req l) i = Some x -> nth_error args i = Some a ->
+  exists b, bind_M ds args = OBound b /\ lookup b x = Some (arg_val a).
+Proof. exact required_kept. Qed.
+Print Assumptions C04_required_kept_under_keys.
+
+(* (10) non-vacuity for (6)-(9): &rest, &key and &allow-other-keys lambda lists inside the guard with their
+   bindings (a repeated keyword, an unknown keyword with and without :allow-other-keys, a lambda list ending
+   in &key) and rejected calls *)
 Theorem C04_guard_nonvacuous_rest_key :
   let ds_r := [D 0; Mk POptional; {| d_name := PVar 1; d_def := Some 7%Z |}; Mk PRest; D 2; Mk PAux; {| d_name := PVar 3; d_def := Some 9%Z |}] in
   let ds_k := [D 0; Mk PKey; {| d_name := PVar 1; d_def := Some 5%Z |}; D 2; Mk PAux; {| d_name := PVar 3; d_def := Some 9%Z |}] in
-  in_domain ds_r [AInt 1%Z; AInt 2%Z; AKw 8; AInt 4%Z] = true /\ NoDup (params ds_r) /\ rest_plain ds_r = true /\
-  bind_M ds_r [AInt 1%Z; AInt 2%Z; AKw 8; AInt 4%Z] = OBound [(0, VInt 1); (1, VInt 2); (2, VList [AKw 8; AInt 4%Z]); (3, VInt 9)] /\
+  let ds_a := [D 0; Mk PKey; D 1; Mk PAllow] in
+  in_domain ds_r [AInt 1%Z; AInt 2%Z; AKw 3; AInt 4%Z] = true /\ NoDup (params ds_r) /\ rest_plain ds_r = true /\
+  bind_M ds_r [AInt 1%Z; AInt 2%Z; AKw 3; AInt 4%Z] = OBound [(0, VInt 1); (1, VInt 2); (2, VList [AKw 3; AInt 4%Z]); (3, VInt 9)] /\
   bind_M ds_r [AInt 1%Z] = OBound [(0, VInt 1); (1, VInt 7); (2, VNil); (3, VInt 9)] /\
-  in_domain ds_k [AInt 1%Z; AKw 2; AInt 8%Z; AKw 1; ANil] = true /\ NoDup (params ds_k) /\ rest_plain ds_k = true /\
-  bind_M ds_k [AInt 1%Z; AKw 2; AInt 8%Z; AKw 1; ANil] = OBound [(0, VInt 1); (1, VNil); (2, VInt 8); (3, VInt 9)] /\
-  in_domain ds_k [AInt 1%Z; AInt 2%Z] = true /\ bind_M ds_k [AInt 1%Z; AInt 2%Z] = OErr KBadKey /\
-  in_domain [Mk PKey] [AInt 1%Z] = true /\ bind_M [Mk PKey] [AInt 1%Z] = OErr KTooMany /\ spec_of [Mk PKey] [AInt 1%Z] = Some (OErr KBadKey).
+  bind_M ds_r [] = OErr KTooFew /\
+  in_domain ds_k [AInt 1%Z; AKw 2; AInt 8%Z; AKw 1; ANil; AKw 2; AInt 6%Z] = true /\ NoDup (params ds_k) /\ rest_plain ds_k = true /\
+  bind_M ds_k [AInt 1%Z; AKw 2; AInt 8%Z; AKw 1; ANil; AKw 2; AInt 6%Z] = OBound [(0, VInt 1); (1, VNil); (2, VInt 8); (3, VInt 9)] /\
+  bind_M ds_k [AInt 1%Z; AInt 2%Z] = OErr KBadKey /\
+  bind_M ds_k [AInt 1%Z; AKw 0; AInt 2%Z] = OErr KBadKey /\
+  bind_M ds_k [AInt 1%Z; AKw 0; AInt 2%Z; AKw allow_kw; AInt 1%Z] = OBound [(0, VInt 1); (1, VInt 5); (2, VNil); (3, VInt 9)] /\
+  bind_M ds_a [AInt 1%Z; AKw 7; AInt 2%Z; AKw 1; AInt 3%Z] = OBound [(0, VInt 1); (1, VInt 3)] /\
+  bind_M [Mk PKey] [AInt 1%Z] = OErr KBadKey /\ bind_M [Mk PKey] [AKw allow_kw; ANil] = OBound [].
 Proof. exact guard_examples_rest_key. Qed.
 Print Assumptions C04_guard_nonvacuous_rest_key.
 
-(* (11) the &rest / &aux witness of (3) spelled out: (defun f (&rest r &aux (x 5)) ...) called as (f :x 1)
-   binds r to nil where the lambda list prescribes (:x 1) *)
-Theorem C04_rest_stops_at_aux_name_refuted :
-  bind_M (fst w_rest_aux) (snd w_rest_aux) = OBound [(0, VNil); (1, VInt 5)] /\
-  spec_of (fst w_rest_aux) (snd w_rest_aux) = Some (OBound [(0, VList [AKw 1; AInt 1%Z]); (1, VInt 5)]).
-Proof. exact rest_aux_witness. Qed.
-Print Assumptions C04_rest_stops_at_aux_name_refuted.
+(* (11) rejections in property terms: a call with too few arguments is rejected whatever the lambda list
+   (C04-8) ... *)
+Theorem C04_too_few_rejected : forall ds l args,
+  parse_ll ds = Some l -> NoDup (params ds) -> rest_plain ds = true ->
+  (List.length args < List.length (l_req l))%nat -> bind_M ds args = OErr KTooFew.
+Proof. exact too_few_rejected. Qed.
+Print Assumptions C04_too_few_rejected.
+
+(* (12) ... one with too many is rejected when the lambda list has neither &rest nor &key ... *)
+Theorem C04_too_many_rejected : forall ds l args,
+  parse_ll ds = Some l -> NoDup (params ds) -> rest_plain ds = true -> l_rest l = None -> l_key l = None ->
+  (List.length (l_req l) + List.length (l_opt l) < List.length args)%nat -> bind_M ds args = OErr KTooMany.
+Proof. exact too_many_rejected. Qed.
+Print Assumptions C04_too_many_rejected.
+
+(* (13) ... and key arguments that are not keyword/value pairs, or that hold a keyword naming no &key
+   parameter while other keys are not allowed, are rejected (C04-7, C04-9) *)
+Theorem C04_bad_keys_rejected : forall ds l args ks,
+  parse_ll ds = Some l -> NoDup (params ds) -> rest_plain ds = true -> l_rest l = None -> l_key l = Some ks ->
+  (List.length (l_req l) <= List.length args)%nat ->
+  match key_pairs (S (List.length (a2of l args))) (a2of l args) with
+  | None => True
+  | Some ps => keys_allowed l ps = false /\ forallb (fun p => key_known ks (fst p)) ps = false
+  end ->
+  bind_M ds args = OErr KBadKey.
+Proof. exact bad_keys_rejected. Qed.
+Print Assumptions C04_bad_keys_rejected.
+
+(* (14) the witnesses of the repaired defects (former refutations: too few arguments, unknown key, key
+   clobbering a required parameter, duplicate key, keyword without a value, &rest stopping at a keyword
+   spelled like an &aux parameter; plus the two ways of allowing other keys): on each the model now yields
+   the listed outcome, which is the specification's, inside the guard *)
+Theorem C04_repaired_witnesses : forallb repaired repaired_witnesses = true.
+Proof. exact repaired_witnesses_ok. Qed.
+Print Assumptions C04_repaired_witnesses.
